@@ -177,5 +177,8 @@ class Report:
             elif os.path.exists(replay):
                 os.remove(replay)
         if not quiet:
-            print("\n".join(out))
+            try:
+                print("\n".join(out), flush=True)
+            except BrokenPipeError:
+                pass
         return code
